@@ -10,6 +10,7 @@ from .. import spaces
 from ..engine import seq_iter, seq_shards
 
 ID = "C01"
+LEAN = True  # cases are distinct by construction; see engine.Acc
 RULE = (
     "every token sequence over the splitter alphabet up to the length bound, every combination of <=k token edits of 6 base "
     "documents, and size-scaled families (n blank/comment/value lines, nesting depth n, n entries, n unterminated blocks, ...); "
